@@ -200,12 +200,13 @@ fn offset_of(text: &[u8], line: u64, col: u64) -> Option<usize> {
             None => return None,
         }
     }
-    let off = start + col as usize;
-    if off <= text.len() {
-        Some(off)
-    } else {
-        None
+    // the column must lie on that line (at most just behind its last byte): a position is a place in the text, not
+    // merely a byte count from the start of the line
+    let line_len = text[start..].iter().position(|&b| b == b'\n').unwrap_or(text.len() - start);
+    if col as usize > line_len {
+        return None;
     }
+    Some(start + col as usize)
 }
 
 const SHORTHANDS: &[&[u8]] = &[b"'", b"`", b",@", b","];
